@@ -39,6 +39,7 @@ EXTRA = {
     "RXNO": ("have_name_matching", r"zz.*"),       # regex matching nothing
     "CONT": ("have_name_containing", ["*a", "r.b"]),
     "CONTNO": ("have_name_containing", ["*a", "zz*"]),     # one partial name matches, the other matches nothing
+    "AP": ("assert_applies", None),                # the rule object is evaluated in the middle of the history (outcome ignored)
 }
 ALLSYMS = {**SYMS, **EXTRA}
 ORDER = list(SYMS)
@@ -55,6 +56,8 @@ def py_spec_accepts(hist) -> bool:
     imp = anything = False
     for s in hist:
         meth, arg = ALLSYMS[s]
+        if meth == "assert_applies":
+            continue          # an evaluation in between supplies nothing and excuses nothing
         if meth == "modules_that":
             side = "S"
         elif meth in ("are_named", "are_sub_modules_of", "have_name_matching", "have_name_containing"):
@@ -108,6 +111,12 @@ def run_history_impl(hist, arch):
     try:
         for s in hist:
             meth, arg = ALLSYMS[s]
+            if meth == "assert_applies":
+                try:
+                    r.assert_applies(arch)
+                except BaseException:  # noqa: BLE001  (outcome of the intermediate evaluation is irrelevant here)
+                    pass
+                continue
             if arg is None:
                 getattr(r, meth)()
             else:
@@ -128,6 +137,8 @@ def enc_history(enc, hist, pats):
             "import_anything": 12, "be_imported_by_anything": 13}
     for s in hist:
         meth, arg = ALLSYMS[s]
+        if meth == "assert_applies":
+            continue          # the model's builder has no intermediate evaluation; such histories are not compared with it
         k = code[meth]
         if k in (1, 2):
             names = [arg] if isinstance(arg, str) else arg
@@ -167,6 +178,9 @@ def _job(hists):
         if acc_py and io[0] in ("PASS", "FAIL") and undefined_in_effect(h):
             viol.append((case, f"history {list(h)} mentions a module name / pattern that denotes nothing, yet produced the verdict {io[0]}", {"kind": "undefined_name"}))
             continue
+        if "AP" in h:
+            # the model sees the history without the intermediate evaluations: an evaluation leaves the rule object unchanged (C15_rule_object_unchanged)
+            stats["with_intermediate_evaluation"] = stats.get("with_intermediate_evaluation", 0) + 1
         if acc_py != acc_coq:
             disag.append((case, f"specification automata disagree (python {acc_py}, coq {acc_coq}) on {list(h)}"))
         if not rules.same_verdict(io, mo) or not rules.same_lines(io, mo):
@@ -198,6 +212,11 @@ def mutations(chain):
     for i in range(n + 1):
         for s in ("ANE", "ANZ", "ANDEEP", "RXNO", "SN", "IA"):
             out.append(chain[:i] + [s] + chain[i:])
+        out.append(chain[:i] + ["AP"] + chain[i:])
+    # the rule object is evaluated, then a further call makes it contradictory / leaves it complete, then it is evaluated again
+    for s in ("SH", "SO", "SN", "IA", "BIA", "IM", "MT"):
+        out.append(chain + ["AP", s])
+        out.append(chain + ["AP", "AP", s])
     return out
 
 
